@@ -53,7 +53,8 @@ func (rw *unescapeRewriter) WriteFieldBody(value string, record *base.LogRecord,
 	if record.Unescaped {
 		return copy(buffer, value)
 	}
-	record.Unescaped = true
+	// DO NOT mark the record as unescaped: the result goes to the output buffer and the record itself, which may be
+	// shared by other outputs, is still in its escaped form
 	first := unescaper.FindFirst(value)
 	if first == -1 {
 		return copy(buffer, value)
